@@ -1,0 +1,13 @@
+//go:build verif
+
+package dcs
+
+// VerifHook, when set by a verification harness, is called at named
+// scheduling points (it may block to let another goroutine run first).
+var VerifHook func(point, who string)
+
+func verifHook(point, who string) {
+	if h := VerifHook; h != nil {
+		h(point, who)
+	}
+}
